@@ -273,6 +273,122 @@ def run(ctx, prog):
             if 'rv' in s and s['pl']['l'] in cfg_locals and s['pl'].get('p'):
                 pre_writes += 1
     ctx.stat('config_field_assignments_in_main', pre_writes)
+    # every input is merged into `config` BEFORE validate: past its success edge main reads neither the parsed command line (clap also fills it from
+    # environment variables) nor the process environment. A value taken from there afterwards (an `--wal-fsync` override applied to the engine configuration)
+    # reaches the engine without ever having been in front of the validator.
+    cli_locals = set(l for l, t in enumerate(m.locals) if re.search(r'(^|[ &(<])kyrodb_server::CliArgs\b', t))
+    if not cli_locals:
+        ctx.missing('C18.R2', 'the parsed command line (a local of type CliArgs) in main')
+    late = []
+    for bb in sorted(after):
+        blk = m.blocks[bb]
+        for s in blk['s']:
+            if 'rv' in s and _mentions(s['rv'], cli_locals):
+                late.append('command line read at %s' % s.get('loc', '?'))
+        t = blk['t']
+        if t['k'] == 'call' and any(a.get('k') in ('mv', 'cp') and a['pl']['l'] in cli_locals for a in t.get('args', [])):
+            late.append('command line read at %s' % t.get('loc', '?'))
+        if t['k'] == 'switch' and t['on'].get('k') in ('mv', 'cp') and t['on']['pl']['l'] in cli_locals:
+            late.append('command line read at %s' % t.get('loc', '?'))
+    for b in fam:
+        for c in b.calls:
+            if c.callee and re.search(r'^std::env::(var|var_os|vars|vars_os|args|args_os)$', c.callee):
+                if b.id != m.id or c.bb in after:
+                    late.append('%s at %s' % (flow.short(c.callee), c.loc))
+    ctx.inst('C18.R2', 'kyrodb_server::main', 'no command-line or environment input is read after validate', bool(cli_locals) and not late,
+             ('%s: the value bypasses KyroDbConfig::validate' % sorted(set(late))[:4]) if late else
+             'CliArgs local(s) %s are not read in the %d blocks after validate(); no std::env read in main' % (sorted(cli_locals), len(after)))
+    engine_gets_validated(ctx, prog, fam, m, vcalls, succ)
+
+
+def _mentions(rv, locals_):
+    k = rv['k']
+    ops = []
+    if k in ('use', 'repeat', 'cast', 'un'):
+        ops = [rv['a']]
+    elif k == 'bin':
+        ops = [rv['a'], rv['b']]
+    elif k == 'agg':
+        ops = rv['ops']
+    elif k in ('ref', 'rawptr', 'discr', 'len'):
+        return rv.get('pl', {}).get('l') in locals_
+    return any(o.get('k') in ('mv', 'cp') and o['pl']['l'] in locals_ for o in ops)
+
+
+def engine_gets_validated(ctx, prog, fam, m, vcalls, succ):
+    """C18.R4: the table of R1 names unsafe VALUES of the configuration; what runs is what main makes of them."""
+    ctx.rule('C18.R4', 'the engine runs what was validated: main builds the engine\'s "never fsync" policy only on the edge on which the validated '
+                       'persistence.fsync_policy is None — the one value the row nonbench-fsync refuses — so no other value of the setting (a new variant, a '
+                       'wildcard arm) and no other input (a flag read next to the configuration) turns fsync off; the TieredEngineConfig handed to the engine '
+                       'takes fsync_policy from that mapping and snapshot_interval / recovery_mode from the validated configuration itself')
+    ov = flow.Origin(m, stop_at_vars=True)
+    of = flow.Origin(m)
+    cfg = flow.render(ov.of_operand(vcalls[0].args[0])) if vcalls and vcalls[0].args else ''
+    if not re.match(r'^(var|arg):\w+$', cfg):
+        ctx.missing('C18.R4', 'the configuration variable handed to validate() in main (got %r)' % cfg)
+        return
+    cq = re.escape(cfg)
+    none_e, other_e = [], []
+    for j, blk in enumerate(m.blocks):
+        if blk['t']['k'] != 'switch':
+            continue
+        for tg, p in flow.switch_edge_predicates(m, j, ov):
+            mm = re.match(r'^variant\(%s→KyroDbConfig\.persistence→PersistenceConfig\.fsync_policy\) (= (\w+)|∉ .*)$' % cq, p)
+            if mm:
+                (none_e if mm.group(2) == 'None' else other_e).append((j, tg, mm.group(1)))
+    r0 = m.reach([0], avoid_edges=[(j, tg) for j, tg, _ in none_e])
+    n_never = 0
+    for b in sorted(prog.bodies.values(), key=lambda x: x.id):
+        if b.crate != 'kyrodb_server' or b.kind == 'Promoted':
+            continue
+        k = 0
+        for i in sorted(b.live_blocks()):
+            for s in b.blocks[i]['s']:
+                rv = s.get('rv')
+                if not (rv and rv['k'] == 'agg' and rv.get('ak') == 'adt' and re.search(r'persistence::FsyncPolicy$', rv.get('adt', '')) and rv.get('variant') == 'Never'):
+                    continue
+                n_never += 1
+                if b.id != m.id:
+                    ok, why = False, 'built at %s, outside the function that validated the configuration' % s.get('loc', '?')
+                else:
+                    ok = bool(none_e) and i not in r0
+                    via = [w for j, tg, w in other_e if i == tg or i in m.reach([tg])]
+                    why = 'only on the edge fsync_policy = None of the validated configuration' if ok else \
+                        'FsyncPolicy::Never at %s is reachable without the validated fsync_policy being None%s: a configuration that validate() accepts outside ' \
+                        'benchmark mode runs without fsync' % (s.get('loc', '?'), (' (edge %s)' % via[0]) if via else '')
+                ctx.inst('C18.R4', b.short.split('::{')[0], 'engine policy Never #%d only for the refused value fsync_policy = None' % k, ok, why)
+                k += 1
+    ctx.floor('C18.R4', 'constructions of the engine policy FsyncPolicy::Never in the server', n_never, 1, 'the None arm of the mapping in main')
+    n_cfg = 0
+    for b in fam:
+        for i in sorted(b.live_blocks()):
+            for s in b.blocks[i]['s']:
+                rv = s.get('rv')
+                if not (rv and rv['k'] == 'agg' and rv.get('adt', '').endswith('TieredEngineConfig') and 'fsync_policy' in (rv.get('fields') or [])):
+                    continue
+                n_cfg += 1
+                f = rv['fields']
+                if b.id != m.id:
+                    ctx.inst('C18.R4', b.short.split('::{')[0], 'engine configuration built where the configuration was validated', False, 'TieredEngineConfig built at %s' % s.get('loc', '?'))
+                    continue
+                alts = flow.top_alternatives(of.of_operand(rv['ops'][f.index('fsync_policy')]))
+                bad = [flow.render(a)[:80] for a in alts if not (a[0] == 'agg' and re.match(r'^persistence::FsyncPolicy::\w+$', a[1]))]
+                ctx.inst('C18.R4', 'kyrodb_server::main', 'engine fsync_policy is one of the policies built by the mapping', not bad and bool(alts),
+                         ('fsync_policy can be %s: not a policy constructed (and guarded) in main' % bad[:2]) if bad else 'alternatives: %s' % sorted(set(a[1] for a in alts)))
+                rm = flow.render(ov.of_operand(rv['ops'][f.index('recovery_mode')])) if 'recovery_mode' in f else '?'
+                ctx.inst('C18.R4', 'kyrodb_server::main', 'engine recovery_mode is the validated setting', rm == cfg + '→KyroDbConfig.persistence→PersistenceConfig.recovery_mode',
+                         'recovery_mode = %s' % rm[:140])
+                si = flow.render(ov.of_operand(rv['ops'][f.index('snapshot_interval')])) if 'snapshot_interval' in f else '?'
+                ctx.inst('C18.R4', 'kyrodb_server::main', 'engine snapshot_interval is the validated setting',
+                         si in ('KyroDbConfig::snapshot_interval_mutations(%s)' % cfg, cfg + '→KyroDbConfig.persistence→PersistenceConfig.snapshot_interval_mutations'),
+                         'snapshot_interval = %s' % si[:140])
+    ctx.floor('C18.R4', 'TieredEngineConfig constructions in main', n_cfg, 1, 'one')
+    acc = prog.body('KyroDbConfig::snapshot_interval_mutations')
+    if acc is not None:
+        r = flow.render(flow.Origin(acc).of_local(0))
+        ctx.inst('C18.R4', acc.short, 'the accessor returns the validated field (0 stays 0)',
+                 bool(re.match(r'^Result::unwrap_or\(\S*try_from\(arg:self→KyroDbConfig\.persistence→PersistenceConfig\.snapshot_interval_mutations\), \d+\)$', r)) or
+                 r == 'arg:self→KyroDbConfig.persistence→PersistenceConfig.snapshot_interval_mutations', 'returns %s' % r[:160])
 
 
 def _compress(body, path):
